@@ -306,3 +306,56 @@ func harnessC02TwoByTwo() { c02Harness(2, 2, vBool()) }
 
 //verif:entry property=C02 tier=thorough bounds="2 goroutines: 2 ops and 1 op, ops as above; optional pre-subscribed handler; every interleaving with at most 3 preemptions" cover="quiesced" preempt=3 race=on
 func harnessC02TwoByOneDeep() { c02Harness(2, 1, vBool()) }
+
+//verif:entry property=C02 tier=both bounds="an Async (optionally also Sequential) handler that yields mid-way; one goroutine publishes K events one after another, another goroutine unsubscribes the handler (or clears the type); every interleaving within the preemption bound; an event whose publish returned before the removal was started is delivered exactly once, any other at most once" cover="quiesced" K_quick=2 K_thorough=3 preempt_quick=2 preempt_thorough=3 race=on
+func harnessC02AsyncRemoval() {
+	K := vParam("K", 2)
+	c01Log = nil
+	c01Re = func(typ, id int) { vYield() }
+	bus := New()
+	so := []SubscribeOption{Async()}
+	if vBool() {
+		so = append(so, Sequential())
+	}
+	vAssert(Subscribe(bus, c01HA[0], so...) == nil, "subscribe-ok")
+	useClear := vBool()
+	pubRet := make([]int, K)
+	removalCall := 0
+	var wg sync.WaitGroup
+	wg.Add(2)
+	go func() {
+		defer wg.Done()
+		for i := 0; i < K; i++ {
+			Publish(bus, evA{N: 10 + i})
+			pubRet[i] = vStep()
+		}
+	}()
+	go func() {
+		defer wg.Done()
+		removalCall = vStep()
+		if useClear {
+			Clear[evA](bus)
+		} else {
+			vAssert(Unsubscribe[evA](bus, c01HA[0]) == nil, "unsubscribe-ok")
+		}
+	}()
+	wg.Wait()
+	bus.Wait()
+	vJoinAll()
+	log := c01TakeLog()
+	for i := 0; i < K; i++ {
+		c := 0
+		for _, e := range log {
+			if e.id == 0 && e.val == 10+i {
+				c++
+			}
+		}
+		vAssert(c <= 1, "delivered-at-most-once")
+		if pubRet[i] < removalCall {
+			vAssert(c == 1, "delivered-exactly-once-when-subscribed-throughout")
+		}
+	}
+	vAssert(HandlerCount[evA](bus) == 0, "quiescent-count-is-registrations-neither-removed-nor-retired")
+	c01Re = nil
+	vCover("quiesced")
+}
